@@ -139,14 +139,27 @@ func vStdWorld(n int, semiSync bool, w int) (*fakes.World, *fakes.Tree, []string
 	tree.Put("master", hosts[0])
 	tree.Put("active_nodes", hosts)
 	// the life of a cluster leaves parents behind (ClearRecovery deletes only the child): every second world has them
-	if vWorldCount.Add(1)%2 == 0 {
+	cnt := vWorldCount.Add(1)
+	if cnt%2 == 0 {
 		tree.Put("recovery", nil)
 		tree.Put("health", nil)
+	}
+	// every third world has a cascade replica of the master: registered, but not an HA node — it is never counted,
+	// frozen, listed or promoted
+	if cnt%3 == 0 && n > 1 {
+		nd := wd.AddNode(vCascadeHost)
+		nd.Executed = wd.Nodes[hosts[0]].Executed
+		nd.ReadOnly, nd.SuperReadOnly = true, true
+		nd.Repl = &fakes.Repl{Source: hosts[0], IO: true, SQL: true}
+		tree.Put("cascade_nodes", "")
+		tree.Put("cascade_nodes/"+vCascadeHost, mysql.CascadeNodeConfiguration{StreamFrom: hosts[0]})
 	}
 	return wd, tree, hosts
 }
 
 var vWorldCount atomic.Int64
+
+const vCascadeHost = "c9"
 
 func vSortedKeys[V any](m map[string]V) []string {
 	var k []string
